@@ -515,6 +515,7 @@ var plaintexts = func() []plaintext {
 		mkPlain("two-readstrings", "currentfile 3 string readstring\n\x00\r\n pop currentfile 2 string readstring \n\n pop ", "mark currentfile closefile\n", "mark", true),
 		mkPlain("dsc-then-readstring", "/R {currentfile 7 string readstring pop} def\n%%BeginData: x\nR abcdefg /after 1 def ", "mark currentfile closefile\n", "mark", true),
 		mkPlain("dsc-inside", "/z 0 def\n%%Inside: yes\n%%+ more\n/a 1 def\n/b 2 def\n%%Second: s\n", "mark currentfile closefile\n", "mark", true),
+		mkPlain("lf-then-dsc", "\n%%Inside: first line\n/a 1 def\r\n%%Second: after CR LF\n/b 2 def ", "mark currentfile closefile\n", "mark", true),
 		mkPlain("long", longDefs(), "mark currentfile closefile\n", "mark", true),
 	}
 	ps[2].long = true
@@ -1209,6 +1210,54 @@ func readDelimBody(c *mc.Ctx, item int) mc.Verdict {
 	return v
 }
 
+// secondCallBody: an interpreter that has run a program with an encrypted tail
+// is used again.  However the encrypted part ended (it closed its file, it
+// executed stop, it failed, the data ran out), the next Execute call reads its
+// own input as clear text; the state after the second call equals the state
+// reached when the first program is given in the clear.
+var secondEndings = []struct{ name, enc, ref string }{
+	{"closefile", "/a 1 def mark currentfile closefile\n", "/a 1 def mark end"},
+	{"stop", "/a 1 def stop\n", "/a 1 def stop"},
+	{"stop inside a procedure", "/a 1 def { { stop } exec } exec\n", "/a 1 def { { stop } exec } exec"},
+	{"error", "/a 1 def 1 (x) add\n", "/a 1 def 1 (x) add"},
+	{"end of data", "/a 1 def", "/a 1 def end"},
+}
+var secondProgs = []string{"/b 2 def a b add", "currentdict /a known", "%%Second: call\n(xyz) length"}
+
+func secondCallBody(c *mc.Ctx, item int) mc.Verdict {
+	e := secondEndings[item%len(secondEndings)]
+	cont := (item / len(secondEndings)) % 4
+	second := secondProgs[item/len(secondEndings)/4]
+	p := plaintext{name: "second-call:" + e.name, enc: e.enc}
+	prog := buildSection(p, cont, "\n", defaultBinPrefix, nil)
+	describe := func() string {
+		return fmt.Sprintf("first call: encrypted part `%s` (%s, ends by %s); second call on the same interpreter: `%s`: %s", e.enc, contNames[cont], e.name, second, show(prog))
+	}
+	ri := postscript.NewInterpreter()
+	ri.ExecuteString("systemdict begin " + e.ref)
+	rerr := ri.ExecuteString(second)
+	want := snapshot(ri, rerr)
+	intp := postscript.NewInterpreter()
+	intp.Execute(bytes.NewReader(prog))
+	err := intp.ExecuteString(second)
+	c.Steps(2)
+	got := snapshot(intp, err)
+	if got != want {
+		kind := "state-differs"
+		if strings.HasPrefix(got, "ERROR") && !strings.HasPrefix(want, "ERROR") {
+			kind = "second-call-fails"
+		}
+		v := mc.Fail("C05:second-call:"+kind, diffAt(got, want)+" | "+describe())
+		v.Render = describe()
+		return v
+	}
+	v := mc.Pass(e.name+"/"+contNames[cont], true)
+	if c.Render() {
+		v.Render = describe()
+	}
+	return v
+}
+
 // insideBody: "with the system dictionary pushed on the dictionary stack" — the
 // dictionary stack INSIDE the section is the one before `eexec` plus systemdict,
 // whatever stood on top before (systemdict itself, userdict, the same
@@ -1298,11 +1347,22 @@ func (b *bytesWriter) Write(p []byte) (int, error) { *b = append(*b, p...); retu
 // prefixSweepBody: every value of every one of the four prefix bytes, the
 // other three being hex digits: the form is binary unless all four are hex
 // digits, whatever the value (control bytes, high bytes, punctuation).
+func plainIndex(name string) int {
+	for i, p := range plaintexts {
+		if p.name == name {
+			return i
+		}
+	}
+	panic("no plaintext " + name)
+}
+
 func prefixSweepBody(c *mc.Ctx, item int) mc.Verdict {
 	pos, val := item/256, byte(item%256)
 	base := [4]byte{'3', 'c', 'E', '1'}
-	pi := c.Choose(3)
-	p := plaintexts[[]int{0, 3, 5}[pi]]
+	sweepPlains := []int{0, 3, 5, plainIndex("lf-then-dsc")}
+	pi := c.Choose(len(sweepPlains))
+	p := plaintexts[sweepPlains[pi]]
+	gap := []string{"\n", " ", "\r"}[c.Choose(3)] // what stands between `eexec` and the cipher text
 	prefix := base
 	prefix[pos] = val
 	if !eexecref.LegalBinaryPrefix(prefix) {
@@ -1310,10 +1370,10 @@ func prefixSweepBody(c *mc.Ctx, item int) mc.Verdict {
 	}
 	tis := trailersFor(p)
 	ti := tis[c.Choose(len(tis))]
-	prog := buildSection(p, contBinary, "\n", prefix, nil)
+	prog := buildSection(p, contBinary, gap, prefix, nil)
 	prog = append(prog, trailers[ti].text...)
-	return runCase(c, "prefix-byte-sweep", []int{0, 3, 5}[pi], ti, prog, 0, func() string {
-		return fmt.Sprintf("binary section with ciphertext prefix % x (byte %d swept), plaintext %s, trailer %s", prefix[:], pos, p.name, trailers[ti].name)
+	return runCase(c, "prefix-byte-sweep", sweepPlains[pi], ti, prog, 0, func() string {
+		return fmt.Sprintf("binary section with ciphertext prefix % x (byte %d swept) after %q, plaintext %s, trailer %s", prefix[:], pos, gap, p.name, trailers[ti].name)
 	})
 }
 
@@ -1398,6 +1458,8 @@ func main() {
 				Rule: fmt.Sprintf("item = the byte that ends the token `closefile` (last encrypted byte) and the clear text continuing from it, %d cases: / [ ( < {  %% starting a name, the empty name, arrays, strings, hexadecimal and ASCII85 strings, a dictionary, procedures, a comment and a DSC comment, and the white-space bytes SP LF NUL FF; x container {binary, hex lower / upper / mixed} x 4 encrypted bodies (closefile also inside a procedure); the state must equal that of `systemdict begin body mark end` followed by the delimiter and the clear text; non-trivial = all", len(closeDelims))})
 			fams = append(fams, mc.Family{Name: "readstring-delimiter-and-first-byte", Items: len(rsDelims) * len(rsFirst) * len(rsForms) * 4, Body: readDelimBody, Budget: budget,
 				Rule: fmt.Sprintf("item = the white-space byte that ends the token before the data (%q) x the first data byte (% x) x {readstring written out, an RD-style procedure} x container: four data bytes (first, LF, 01, CR) must be delivered exactly; in particular a CR as delimiter does not take a following LF with it; non-trivial = all", rsDelims, rsFirst)})
+			fams = append(fams, mc.Family{Name: "second-call-after-a-section", Items: len(secondEndings) * 4 * len(secondProgs), Body: secondCallBody, Budget: budget,
+				Rule: fmt.Sprintf("item = how the encrypted part of the first Execute call ends (%d ways: closefile, stop, stop inside procedures, an error, end of data) x container x %d programs for a second call on the same interpreter: the state after the second call equals the one reached when the first program is `systemdict begin` + plaintext in the clear; non-trivial = all", len(secondEndings), len(secondProgs))})
 			fams = append(fams, mc.Family{Name: "prefix-byte-sweep", Items: 4 * 256, Body: prefixSweepBody, Budget: budget,
 				Rule: "item = (position 0..3, byte value 0..255): binary section whose ciphertext prefix is three hex digits and that byte; x 3 plaintexts x trailers; differential against the clear-text run; non-trivial = the prefix is legal for the binary form"})
 			fams = append(fams, mc.Family{Name: "two-sections-in-one-stream", Items: len(plaintexts) * len(plaintexts) * 16, Body: twoSectionsBody, Budget: budget,
